@@ -47,8 +47,8 @@ checks += [
     chk("C08", "routerlab+e2elab", "model_checking", rtext("the C01/C02/C10 families with error answers enabled on every sink operation and error items / early ends on every stream, plus FanoutMany and Router driven directly with every answer vector") + "; oracle: no panic, healthy peers keep their full C01/C02 obligations, a failed replier is unbound and the next one serves", R_NOTE + "; at most one injected error per mock half; server half (e2elab): on the real server every victim role {subscriber, publisher, replier, requestor} x every failure a real QUIC peer can produce {connection close, STOP_SENDING, RESET_STREAM, both, dropped stream, graceful finish, half a frame then end} x moment {idle, mid-stream, while blocking the topic by not reading, request in flight, reply after death}: the healthy peers must receive exactly what is owed, a new replier must be bound and serve; scheduling there is not controlled", R_TECH + " + exhaustive victim x failure x moment matrix over the real server", "DESIGN.md §3 C08, §5 C08"),
     chk("C09", "routerlab", "model_checking", rtext("all no-fault families of C01/C02/C10/C16 plus one-sided topologies (nobody, only subscribers, only publishers, only repliers, only requestors, replier leaves)") + "; oracles: step budget per poll (spin), 400-poll horizon (self-wake livelock), and a probe poll at every quiescent point that must make no observable progress (lost wake-up)", R_NOTE, R_TECH, "DESIGN.md §3 C09"),
     chk("C10", "routerlab+e2elab", "model_checking", rtext("1-3 repliers registering at every point of an exchange, departures of the bound one, pending/wake of the rejected replier's sink, two late repliers in one poll") + "; oracle: never two bound, a rejection is justified by an earlier still-bound replier and consists of exactly one replier-already-bound error followed by a completed close, a replier registering after the bound one ended is bound and served", R_NOTE + "; server half (e2elab): a real second replier - opened from the same client as the bound one or from another, with or without a retry budget - keeps registering while 30 requests must all be answered by the bound one; a raw rival whose stream grants 9..1024 bytes of credit must be told Ok, replier-already-bound and then see its stream end", R_TECH + " + rival matrix over the real server and client", "DESIGN.md §3 C10, §5 C10"),
-    chk("C11", "routerlab+e2elab", "model_checking", rtext("every non-Message frame kind as 1st/2nd request or as a reply, requests that fit the frame limit only before the routing tag is added, all 8 kinds through the pub/sub router, each followed by a well-formed exchange") + "; oracle: no panic and the following exchange satisfies C01/C02", R_NOTE + "; server half (e2elab): first frame of every kind x topic state {fresh, pub/sub, req/rep} must be served (exercised with helper peers) or refused with an error code, follow-up frames of every kind per role, and the real client's open() against a fake server answering with every frame kind or closing; scheduling there is not controlled", R_TECH + " + exhaustive hostile-input matrix over the real server", "DESIGN.md §3 C11, §5 C11"),
-    chk("C16", "routerlab+e2elab", "model_checking", rtext("close of the registration channel at every point of the pub/sub and req/rep families (idle, item buffered, flush pending, one side only, rejected replier pending) followed by every pending/wake outcome of the sinks") + "; oracle: the router future completes once every sink can accept data, and every frame taken from a publisher was handed over and flushed to every healthy subscriber first", R_NOTE + "; server half (e2elab): the real server in a child process is brought into 14 states by raw peers (incl. a registration parked on a peer that grants no flow-control credit, a slow subscriber whose router holds taken messages, and - SAMPLED, 16 repetitions quick / 48 thorough - a burst of 256 concurrent first registrations), receives SIGINT and must exit with status 0 within 20 s having delivered what its routers had taken", R_TECH + " + state matrix with SIGINT on the real server process", "DESIGN.md §3 C16"),
+    chk("C11", "routerlab+e2elab", "model_checking", rtext("every non-Message frame kind as 1st/2nd request or as a reply, requests that fit the frame limit only before the routing tag is added, all 8 kinds through the pub/sub router, each followed by a well-formed exchange") + "; oracle: no panic and the following exchange satisfies C01/C02", R_NOTE + "; server half (e2elab): first frame of every kind x topic state {fresh, pub/sub, req/rep} must be served (exercised with helper peers) or refused with an error code, follow-up frames of every kind per role, and the real client's open() against a fake server answering with every frame kind or closing; scheduling there is not controlled, except that racing first registrations are also run against a server whose repeated and nested tokio-mutex acquisitions are stretched (seam in the vendored tokio)", R_TECH + " + exhaustive hostile-input matrix over the real server", "DESIGN.md §3 C11, §5 C11"),
+    chk("C16", "routerlab+e2elab", "model_checking", rtext("close of the registration channel at every point of the pub/sub and req/rep families (idle, item buffered, flush pending, one side only, rejected replier pending) followed by every pending/wake outcome of the sinks") + "; oracle: the router future completes once every sink can accept data, and every frame taken from a publisher was handed over and flushed to every healthy subscriber first", R_NOTE + "; server half (e2elab): the real server in a child process is brought into 14 states by raw peers (incl. a registration parked on a peer that grants no flow-control credit, a slow subscriber whose router holds taken messages, and - SAMPLED, 16 repetitions quick / 48 thorough - a burst of 256 concurrent first registrations; and, not sampled, the same burst against a server whose nested and repeated tokio-mutex acquisitions are stretched by a seam in the vendored tokio), receives SIGINT and must exit with status 0 within 20 s having delivered what its routers had taken", R_TECH + " + state matrix with SIGINT on the real server process", "DESIGN.md §3 C16"),
 ]
 
 E_NOTE = "scheduling inside tokio/quinn/the kernel is NOT controlled: what is enumerated exhaustively is the property's quantified dimension (configurations, reply orders, fault points and sequences); expected arrivals are awaited with generous ceilings (10-20 s), expected absences are short quiet windows (can only under-report); trusted base: quinn, rustls, loopback UDP"
